@@ -7,7 +7,7 @@
 //     seed       schedule seed (per-thread PRNG = splitmix64(seed, thread))
 //     perturb    0: no perturbation; 1: seeded sched_yield()/usleep(0..300us) between items
 //     prewarm    comma separated warm-up actions executed by the MAIN thread before the threads are released
-//                (only used to step over known findings): kidok | rangetoken | pool (runs the poolwarm.<k> items)
+//                (only used to step over known findings): kidok | rangetoken | schemaload | pool (runs the poolwarm.<k> items)
 //     warmcats   comma separated category names for the `rangetoken` warm-up
 //     pool.xsd / pool.dtd   grammars preloaded into ONE shared XMLGrammarPoolImpl which is then lockPool()ed
 //     i.<t>.<j>  work item j of thread t: a nested request (same format) with field `k` = item kind:
@@ -122,6 +122,7 @@ static std::string runParseItem(const Req& r, XMLGrammarPool* pool, FacSet& fac)
     if (pool) { fac.insert("shared-pool"); fac.insert("uripool"); }
     bool schema = f.b("schema", false) && f.i("val", 0) != 0;
     if (schema && !pool) fac.insert("kidOK");                       // schema documents are parsed into a DOM (XSDDOMParser)
+    if (schema && !pool) fac.insert("schema-load");
     if (schema) { fac.insert("schema-validation"); for (Req::const_iterator it = r.begin(); it != r.end(); ++it) if (it->first.compare(0, 4, "ent:") == 0) regexFacilities(it->second, fac); }
     if (f.i("val", 0) != 0 && !f.b("schema", false)) fac.insert("dtd-validation");
     try {
@@ -453,6 +454,16 @@ static void warmKidOK() {
     doc->getDocumentElement()->appendChild(doc->createTextNode(X("t").c()));
     doc->release();
 }
+static void warmSchemaLoad() {
+    // first schema traversal in the process (TraverseSchema::getElementAttValue fills a function-local static table)
+    static const char xsd[] = "<xs:schema xmlns:xs='http://www.w3.org/2001/XMLSchema'><xs:element name='w' type='xs:string'/></xs:schema>";
+    try {
+        SAX2XMLReaderImpl loader;
+        loader.setFeature(XMLUni::fgXercesSchema, true);
+        MemBufInputSource is((const XMLByte*)xsd, sizeof xsd - 1, X("warm.xsd").c(), false);
+        loader.loadGrammar(is, Grammar::SchemaGrammarType, false);
+    } catch (...) {}
+}
 static void warmRangeToken(const std::string& cats) {
     std::vector<std::string> names = split(cats, ',');
     std::vector<std::string> pats;
@@ -536,6 +547,7 @@ int main(int argc, char** argv) {
                     Req wr; if (parseNested(it->second, wr)) runParseItem(wr, pool, dummy);
                 }
             }
+            else if (warm[i] == "schemaload") warmSchemaLoad();
             else if (warm[i] == "kidok") warmKidOK();
             else if (warm[i] == "rangetoken") warmRangeToken(get(top, "warmcats"));
         }
